@@ -225,6 +225,12 @@ RULES['C03'] = 'program = 1-3 signals of mixed types (1-4 summary levels, omissi
 ASSUME['C03'] = ['crash model: a prefix of the backend write sequence reaches the disk in order, the last write possibly partially (no reordering of writes by the OS)', 'synchronous writer programs only in this run; files <= ~60 KiB'] + DECODER_ASSUMPTIONS
 
 CHECKS['C19'] = [file_run('mix', 100, 5000, ['C19']), crash_run(3, 100, ['C19'])]
+
+CHECKS['C04'] = [dict(harness='h_flip', variant='plain', args=[], quick=2 * 16, thorough=12 * 16, props=['C04'], name='flip')]
+LEVELS['C04'] = 'fault_enumeration'
+RULES['C04'] = 'file = small closed file (two signals of different widths, 2 summary levels, annotation and UTC index levels, user data, an omitted block); faults: EVERY single-bit flip of the file (exhaustive per file), sampled 2/3-bit combinations inside one protected region, bursts of 1..32 bits, zero/0xFF/random overwrites incl. several chunks, END chunk and file-header length; each altered copy is opened in its own process and every reader result must be an error, the truth, or a correct prefix. evaluations = faults; distinct = (family, region kind, chunk tag, outcome)'
+ASSUME['C04'] = ['pad bytes between payload and CRC are not covered by any CRC: faults there must simply not change what is returned (counted separately)',
+                 'family d (arbitrary overwrites) is outside the guaranteed detection of CRC-32C: an altered file whose CRCs all verify with the independent implementation is counted inconclusive, never a violation'] + DECODER_ASSUMPTIONS
 LEVELS['C19'] = 'fault_enumeration'
 RULES['C19'] = 'closed files: full read mix under the I/O log, 0 writes / no writable open / identical bytes; crash images: see h_crash'
 ASSUME['C19'] = []
